@@ -483,7 +483,7 @@ pub fn scenario(name: &str, params: &Value) -> Scenario {
             sys.events.push(format!("own Maximum Packet Size {}, inbound PUBLISH of {} bytes", n, pkt.encode().len()));
             sys.apply(Ev::Deliver(pkt));
             sys.finish();
-            sys.report(ex, &["publish-values"]);
+            sys.report(ex, &["message-dispatched"]);
         }),
         "C02/values" => Box::new(move |chz, ex| {
             // boundary string / binary lengths in the packets read while running
